@@ -175,17 +175,20 @@ func (br *BodyBuffer) Reset() error {
 	if environment.HasAccessToFS && br.writer != nil {
 		w := br.writer
 		br.writer = nil
-		if err := verif.Fault("body.close"); err != nil {
-			_ = w.Close()
-			return err
+		// The temporary file is removed even when closing it fails, otherwise it would stay
+		// behind for good: nothing else knows its name.
+		closeErr := verif.Fault("body.close")
+		if err := w.Close(); closeErr == nil {
+			closeErr = err
 		}
-		if err := w.Close(); err != nil {
-			return err
+		removeErr := verif.Fault("body.remove")
+		if removeErr == nil {
+			removeErr = os.Remove(w.Name())
 		}
-		if err := verif.Fault("body.remove"); err != nil {
-			return err
+		if closeErr != nil {
+			return closeErr
 		}
-		return os.Remove(w.Name())
+		return removeErr
 	}
 
 	return nil
